@@ -197,10 +197,10 @@ pub fn check(pid: &str, seed: u64) -> Value {
     if ["C05", "C06", "C07", "C08", "C10"].contains(&pid) {
         let mut rep = crate::preds2::Rep { evals: 0, nontrivial: 0, failures: vec![], samples: vec![] };
         let (domain, rule) = match pid {
-            "C05" => { crate::preds2::c05(&mut rep); ("EAMBIENTE / TERMOSOLAR x two systems with ids from {-1,0,1} (also the same id twice) x use in {0, 2, (3,1)} x declared production in {none, 1, 5, (0,4)} x one or two uses per system; 2 steps", "every generated file has ambient / solar components") }
+            "C05" => { crate::preds2::c05(&mut rep); ("EAMBIENTE / TERMOSOLAR x two systems with ids from {-1,0,1} (also the same id twice) x use in {0, 2, (3,1)} x declared production in {none, 1, 5, (0,4)} x one use, two EPB uses, or an EPB and a non-EPB use per system; 2 steps", "every generated file has ambient / solar components") }
             "C06" => { crate::preds2::c06(&mut rep); ("system 1 with services {CAL},{CAL,ACS},{CAL,REF},{CAL,ACS,REF} x outputs from {30,10,-10,(30,0),(10,0),(0,20)} x AUX in {4,(4,2),(0,3)} x with/without a second single-service system with AUX x electricity otherwise present or absent", "multi-service systems are the non-trivial cases") }
             "C10" => { crate::preds2::c10(&mut rep, seed); ("3 base files x {6 random line orders, comments/blank/header/BOM/whitespace, ids renumbered, id 0 omitted, one component split in two lines} + 20 repeated evaluations each", "every rewriting is non-trivial") }
-            _ => { crate::preds2::c07(&mut rep, seed); ("factor files over every non-empty subset of {ELECTRICIDAD,GASNATURAL,BIOMASA,EAMBIENTE,RED1} with pairwise distinct marker values x 8 sets of user-given export factors x user RED1/RED2 {none, red1, both}; then up to 7 buildings over the carriers of the set x (k_exp, load matching) in {(0,off),(0.5,on)}, each with the full and the stripped set", "every accepted factor file is non-trivial") }
+            _ => { crate::preds2::c07(&mut rep, seed); ("factor files over every non-empty subset of {ELECTRICIDAD,GASNATURAL,BIOMASA,EAMBIENTE,RED1} with pairwise distinct marker values x 8 sets of user-given export factors x user RED1/RED2 {none, red1, both}; then up to 12 buildings over the carriers of the set (PV surplus, cogeneration with one or two fuels, non-EPB uses of electricity / ambient heat / solar thermal, outputs and auxiliaries) x (k_exp, load matching) in {(0,off),(0.5,on)}, each with the full and the stripped set", "every accepted factor file is non-trivial") }
         };
         let fails: Vec<Value> = rep.failures.into_iter().filter(|f| { let c = f["clause"].as_str().unwrap_or(""); match pid { "C07" => c.starts_with("C07"), "C08" => c.starts_with("C08"), _ => true } }).collect();
         return json!({"property": pid, "seed": seed, "evaluations": rep.evals, "distinct_nontrivial": rep.nontrivial, "exhaustive": true, "domain": domain, "rule": rule, "failures": fails, "samples": rep.samples});
